@@ -226,7 +226,31 @@ func c16Case(in c16In, tags ...string) caseRec {
 				ok = false
 			}
 		}
-		coq = fmt.Sprintf("(KGoOnly 1 %s)", coqBool(ok))
+		_ = ok
+		vaTerm := func(m map[uint32]uint64) string {
+			if m == nil {
+				return "None"
+			}
+			var ks []uint32
+			for k := range m {
+				ks = append(ks, k)
+			}
+			sort.Slice(ks, func(i, j int) bool { return ks[i] < ks[j] })
+			var xs []string
+			for _, k := range ks {
+				xs = append(xs, fmt.Sprintf("(%d, %s)", k, coqZu(m[k])))
+			}
+			return "(Some (list_to_map " + coqList(xs) + "))"
+		}
+		decTerm := "None"
+		if e2 == nil {
+			decTerm = fmt.Sprintf("(Some (%d, %s))", back.ProtocolVersion, vaTerm(back.ValidAfterNanoseconds))
+		}
+		encTerm := "None"
+		if e1 == nil {
+			encTerm = "(Some " + coqHex(b) + ")"
+		}
+		coq = fmt.Sprintf("(KRetire %d %s %s %s)", in.Ver, vaTerm(in.VA), encTerm, decTerm)
 	case "mercoffchain":
 		oc := mercury.OffchainConfig{ExpirationWindow: in.Ver, BaseUSDFee: in.Val.D.decimal()}
 		b, e1 := oc.Encode()
@@ -322,7 +346,7 @@ func word(v *big.Int) []byte {
 	return m.FillBytes(make([]byte, 32))
 }
 
-const c16Header = "From stdpp Require Import gmap.\nFrom DS Require Import Base Decimal StreamValue Aggregators Outcome OutcomeCodec Observe ObservationCodec Config CasesCodec16.\n"
+const c16Header = "From stdpp Require Import gmap.\nFrom DS Require Import Base Decimal StreamValue Aggregators Outcome OutcomeCodec Observe ObservationCodec Config RetirementJson CasesCodec16.\n"
 
 func cmdCodecs16(seed int64, n int, out, replay, tier string) {
 	var cs []caseRec
@@ -408,9 +432,16 @@ func cmdCodecs16(seed int64, n int, out, replay, tier string) {
 			default:
 				va := map[uint32]uint64{}
 				for k := r.Intn(6); k > 0; k-- {
-					va[randU32(r)] = randU64(r)
+					if r.Intn(2) == 0 {
+						va[uint32(r.Intn(120))] = randU64(r) // small ids of different lengths: "10" sorts before "2"
+					} else {
+						va[randU32(r)] = randU64(r)
+					}
 				}
-				cs = append(cs, c16Case(c16In{Kind: "retirement", Ver: uint32(r.Intn(2)), VA: va}, "go-only"))
+				if r.Intn(6) == 0 {
+					va = nil
+				}
+				cs = append(cs, c16Case(c16In{Kind: "retirement", Ver: []uint32{0, 1, 1, randU32(r)}[r.Intn(4)], VA: va}, "structured"))
 				d := genDecWild(r)
 				cs = append(cs, c16Case(c16In{Kind: "mercoffchain", Ver: randU32(r), Val: &svDesc{T: "dec", D: &d}}, "go-only"))
 			}
